@@ -195,6 +195,49 @@ def functions():
     return out
 
 
+def illformed(m):
+    """-> list of well-formedness defects of a model returned by the API (independent of pharmpy's own validator)"""
+    out = []
+    try:
+        pn = m.parameters.names
+        if len(set(pn)) != len(pn):
+            out.append('parameter names not unique')
+        for p in m.parameters:
+            if not (p.lower <= p.init <= p.upper) or p.init != p.init:
+                out.append(f'parameter {p.name}: init {p.init} outside [{p.lower}, {p.upper}]')
+        rn = m.random_variables.names
+        if len(set(rn)) != len(rn):
+            out.append('random variable names not unique')
+        if len(set(m.datainfo.names)) != len(m.datainfo.names):
+            out.append('column names not unique')
+        defined = set(pn) | set(rn) | set(m.datainfo.names) | {'t'}
+        for st in m.statements:
+            if hasattr(st, 'symbol'):
+                for x in st.expression.free_symbols:
+                    nm = str(x)
+                    if nm not in defined:
+                        out.append(f'{st.symbol} uses undefined symbol {nm}')
+                defined.add(str(st.symbol))
+            else:
+                amounts = {str(a) for a in st.amounts}
+                for x in st.free_symbols:
+                    nm = str(x)
+                    if nm not in defined and nm not in amounts and not nm.startswith('A_'):
+                        out.append(f'ODE system uses undefined symbol {nm}')
+                defined |= amounts
+                defined |= {str(a).split('(')[0] for a in st.amounts}
+        for dv in m.dependent_variables:
+            if str(dv) not in defined:
+                out.append(f'dependent variable {dv} is not defined')
+    except Exception as e:  # noqa
+        out.append(f'inspection failed: {type(e).__name__}: {e}')
+    try:
+        m.code
+    except Exception as e:  # noqa
+        out.append(f'code cannot be generated: {type(e).__name__}: {str(e)[:80]}')
+    return out[:3]
+
+
 _M = {}
 
 
@@ -206,8 +249,12 @@ def _task(t):
     m = _M[label]
     before = snapshot(m)
     status = 'ok'
+    ill = []
     try:
-        getattr(pm, fname)(m, **kw)
+        res = getattr(pm, fname)(m, **kw)
+        from pharmpy.model import Model
+        if isinstance(res, Model):
+            ill = illformed(res)
     except BaseException as e:  # noqa  (what the function does with its own result is not the subject)
         status = type(e).__name__
     after = snapshot(m)
@@ -215,14 +262,39 @@ def _task(t):
     if changed:
         # the start model of this worker is no longer trustworthy
         _M.pop(label, None)
-    return (label, fname, repr(kw), status, changed)
+    return (label, fname, repr(kw), status, changed, ill)
+
+
+KNOWN_ILLFORMED = [('rich', 'set_transit_compartments', 'ALAG1')]     # see known_findings.json (C06 / C02)
+
+
+def _is_known(l, f, ill):
+    return any(l == kl and f == kf and all(kw in x for x in ill) for kl, kf, kw in KNOWN_ILLFORMED)
+
+
+def results_wellformed(nproc: int = 8, known_only: bool = False):
+    """Concrete companion (sampling): every Model returned by the calls of the no_mutation family is well formed -
+    unique names, initial values within bounds, every symbol used by a statement / the ODE system is a parameter, a
+    random variable, a data column, t or defined earlier, and the code can be generated."""
+    if known_only:
+        tasks = [(l, f, {'n': 2}) for l, f, _ in KNOWN_ILLFORMED]
+        res = [_task(t) for t in tasks]
+        bad = [(l, f, k, ill) for l, f, k, s, c, ill in res if ill]
+    else:
+        tasks = [(label, fn, kw) for label in START for fn, kw in functions()]
+        with mp.Pool(nproc) as pool:
+            res = pool.map(_task, tasks, chunksize=4)
+        bad = [(l, f, k, ill) for l, f, k, s, c, ill in res if ill and not _is_known(l, f, ill)]
+    if bad:
+        raise AssertionError('ill-formed model returned by: ' + '; '.join(f'{f}({k}) on {l}: {i}' for l, f, k, i in bad[:6]))
+    return True
 
 
 def no_mutation(nproc: int = 8):
     tasks = [(label, fn, kw) for label in START for fn, kw in functions()]
     with mp.Pool(nproc) as pool:
         res = pool.map(_task, tasks, chunksize=4)
-    bad = [(l, f, k, c) for l, f, k, s, c in res if c]
+    bad = [(l, f, k, c) for l, f, k, s, c, _ in res if c]
     called = sum(1 for r in res if r[3] == 'ok')
     if called < 100:
         raise AssertionError(f'only {called} calls succeeded: the probe is not exercising the API')
@@ -242,6 +314,8 @@ if __name__ == '__main__':
     for r in res:
         if r[4]:
             print('MUTATED', r)
+        if r[5]:
+            print('ILLFORMED', r[0], r[1], r[2], r[5])
     print(len(tasks), time.time() - t0)
 
 
